@@ -267,7 +267,9 @@ func c47() {
 			}
 		}
 	}
+	c47Sequences(run)
 	run.Assumptions = []string{
+		"after a key-setting operation that returned an error the object's state is not defined by the property; only 'Verify never accepts a signature of a key other than the reported one' is compared there",
 		"keys and hashes come from a fixed alphabet; the cryptographic claim for all keys is not enumerable and not claimed",
 		"a tampered byte string that decodes to the same group element as the original is not counted as another key/signature",
 		"a Go panic inside Verify (ed25519 with a wrong-length public key) is counted as a rejection and listed as its own outcome class",
